@@ -24,6 +24,7 @@ import (
 	"strings"
 
 	sdk "github.com/cosmos/cosmos-sdk/types"
+	"github.com/cosmos/cosmos-sdk/types/bech32"
 	"github.com/tendermint/tendermint/libs/log"
 
 	"github.com/MinterTeam/mhub2/minter-connector/command"
@@ -154,6 +155,13 @@ func genCommand(rng *Rng, stats map[string]int) (ctype, recipient, fee string, b
 	}
 	if ctype == "send_to_hub" {
 		recipient = rng.Pick([]string{sdk.AccAddress(strings.Repeat("\x01", 20)).String(), sdk.AccAddress(strings.Repeat("\x01", 20)).String(), "cosmos1qqqq", hexAddr})
+		if rng.Chance(1, 4) {
+			// well-formed bech32 strings (right prefix, valid checksum) around the limits of the address length
+			n := []int{0, 1, 19, 20, 32, 255, 256, 300}[rng.Intn(8)]
+			if r, err := bech32.ConvertAndEncode(sdk.GetConfig().GetBech32AccountAddrPrefix(), []byte(strings.Repeat("\x02", n))); err == nil {
+				recipient = r
+			}
+		}
 	}
 	_, err := sdk.AccAddressFromBech32(recipient)
 	bechOK = err == nil
@@ -237,6 +245,26 @@ func genTx(rng *Rng, stats map[string]int) mtx {
 		case 1:
 			t.jsonOK = false
 			t.payload = []byte(fmt.Sprintf(`{"type":%q,"recipient":%q,"fee":5}`, t.ctype, t.recipient))
+		case 2, 3:
+			// a command that omits keys: a fresh decode leaves those fields empty
+			m := map[string]string{}
+			if rng.Chance(2, 3) {
+				m["type"] = t.ctype
+			} else {
+				t.ctype = ""
+			}
+			if rng.Chance(2, 3) {
+				m["recipient"] = t.recipient
+			} else {
+				t.recipient = ""
+			}
+			if rng.Chance(1, 3) {
+				m["fee"] = t.fee
+			} else {
+				t.fee = ""
+			}
+			p, _ := json.Marshal(m)
+			t.payload = p
 		default:
 			p, _ := json.Marshal(map[string]string{"type": t.ctype, "recipient": t.recipient, "fee": t.fee})
 			t.payload = p
